@@ -304,6 +304,15 @@ func (lw *linkWatcher) pump() {
 			drop = false
 			d = 0
 		}
+		// the delay counts from the change itself (network delay), not from the previous delivery: FIFO is
+		// kept, but lag does not accumulate beyond the largest delay
+		if !ev.At.IsZero() {
+			if since := time.Since(ev.At); since < d {
+				d -= since
+			} else {
+				d = 0
+			}
+		}
 		if d > 0 {
 			t := time.NewTimer(d)
 			select {
